@@ -95,6 +95,13 @@ def _fault(r, c):
     return [['adv', k]]
 
 
+def _snap(arrays):
+    """private copy of returned arrays, taken before anything else in the library is called"""
+    if isinstance(arrays, dict):
+        return {k: np.array(v, copy=True) for k, v in arrays.items()}
+    return arrays
+
+
 def arrays_equal(a, b):
     if not isinstance(a, dict) or not isinstance(b, dict) or sorted(a) != sorted(b):
         return False
@@ -264,8 +271,8 @@ class MirrorSim(Sim):
                 self.violate('mirror', 'read_before_reset_did_not_raise', 'outer.observation', '-', 'returned a value')
             return
         self.op_read_obs(cl, 1)  # keeps the twin's memo in step (outer.observation reads inner.observation)
-        arr = sut(lambda: cl.outer.observation)
-        exp = sut(cl.orep.convert, cl.O) if not isinstance(cl.O, Raised) else cl.O
+        arr = _snap(sut(lambda: cl.outer.observation))
+        exp = _snap(sut(cl.orep.convert, cl.O)) if not isinstance(cl.O, Raised) else cl.O
         if isinstance(arr, Raised) or isinstance(exp, Raised):
             if isinstance(arr, Raised) != isinstance(exp, Raised):
                 self.violate('mirror', 'outer_observation_outcome_differs', 'outer', '-', f'{arr!r} vs {exp!r}')
@@ -275,8 +282,8 @@ class MirrorSim(Sim):
             return
         self.ctx.probe('outer_observation_read')
         if cl.srep is not None:
-            sarr = sut(lambda: cl.outer.state)
-            sexp = sut(cl.srep.convert, cl.S)
+            sarr = _snap(sut(lambda: cl.outer.state))
+            sexp = _snap(sut(cl.srep.convert, cl.S))
             if isinstance(sarr, Raised) or isinstance(sexp, Raised):
                 if isinstance(sarr, Raised) != isinstance(sexp, Raised):
                     self.violate('mirror', 'outer_state_outcome_differs', 'outer', '-', f'{sarr!r} vs {sexp!r}')
